@@ -232,6 +232,8 @@ func (g *gen) addFaults(f *Fn) {
 			kind = "digerr"
 			if g.coin(0.25) {
 				kind = "digcycerr"
+			} else if g.coin(0.25) {
+				kind = "rawdigerr"
 			}
 		}
 	}
@@ -246,7 +248,7 @@ func (g *gen) addFaults(f *Fn) {
 	case 3:
 		f.Faults[0] = kind
 	}
-	if kind != "err" && kind != "digerr" && kind != "digcycerr" && g.coin(0.3) {
+	if kind != "err" && kind != "digerr" && kind != "digcycerr" && kind != "rawdigerr" && g.coin(0.3) {
 		f.HasErr = true
 	}
 }
